@@ -56,7 +56,8 @@ def cases(tier, seed):
              "ellipsoid", "capsule", "janus", "csg", "scatterers", "non_scatterer", "spheres_boundary", "spheres_boundary", "spheres_exact"]
     nr = len(kinds) * (2 if tier == "quick" else 30)
     for i in range(nr):
-        out.append({"id": "rule-%d" % i, "kind": "rule", "what": kinds[i % len(kinds)], "offset": [-1e-9, 1e-9, -1e-3, 1e-3, -0.3, 0.5][(i // len(kinds)) % 6],
+        out.append({"id": "rule-%d" % i, "kind": "rule", "what": kinds[i % len(kinds)], "offset": [-1e-7, 1e-7, -1e-3, 1e-3, -0.3, 0.5][(i // len(kinds)) % 6],      # (the rule is evaluated with a relative tolerance of 1e-9 since the rounding repair)
+                   
                     "how": ["auto", "default", "class", "instance"][(i // 3) % 4], "seed": [seed, "rule", i], "cost": 3})
     return out
 
